@@ -38,6 +38,9 @@ func c14Histories() [][]Op {
 		// slab, each type used twice (shared type-info table with two entries), plus a compact pair in the map
 		h(Op{K: "append", C: 0, V: "M8:t"}, Op{K: "append", C: 0, V: "M9:t"}, Op{K: "append", C: 0, V: "M8:t"}, Op{K: "append", C: 0, V: "M9:t"},
 			Op{K: "mset", C: 1, Key: 0, V: "Mc:t,t"}, Op{K: "mset", C: 1, Key: 1, V: "M5:t"}, Op{K: "mset", C: 1, Key: 2, V: "Mc:t,t"}, Op{K: "mset", C: 1, Key: 3, V: "M5:t"}, Op{K: "mset", C: 1, Key: 4, V: "M6:t"}, Op{K: "mset", C: 1, Key: 5, V: "M6:t"}),
+		// keys colliding on the first digest level under the default (pooled) digester
+		h(Op{K: "mset", C: 1, Key: 300, V: "t"}, Op{K: "mset", C: 1, Key: 301, V: "s60"}, Op{K: "commit", N: 1},
+			Op{K: "mset", C: 1, Key: 302, V: "s60"}, Op{K: "mremove", C: 1, Key: 300}, Op{K: "append", C: 0, V: "t"}),
 		// map growing into several slabs
 		h(Op{K: "mset", C: 1, Key: 0, V: "limM"}, Op{K: "mset", C: 1, Key: 1, V: "limM"}, Op{K: "commit", N: 1},
 			Op{K: "mset", C: 1, Key: 2, V: "limM"}, Op{K: "mset", C: 1, Key: 3, V: "limM"}, Op{K: "mset", C: 1, Key: 4, V: "limM"}, Op{K: "append", C: 3, V: "limA+"}),
